@@ -313,6 +313,62 @@ def verdict(sb, spec, obs):
     return None if obs[1] == "ENotFound" else "exception-" + obs[1]
 
 
+def _swap_once(workdir, kind, reject, what, use_async):
+    """One environment, two requests for the same name; between them the file (or its directory) inside the search path is replaced
+    by a symbolic link to a place outside it.  -> (first, second) observations."""
+    import shutil
+
+    from liquid import Environment
+
+    top = os.path.join(workdir, f"c22swap-{kind}-{int(reject)}-{what}-{int(use_async)}")
+    os.makedirs(os.path.join(top, "root", "d"))
+    os.makedirs(os.path.join(top, "outside", "d"))
+    for rel, text in (("root/swap.liquid", "IN:swap"), ("root/d/page.liquid", "IN:d/page"), ("outside/swap.liquid", "OUTSIDE:swap"),
+                      ("outside/d/page.liquid", "OUTSIDE:d/page")):
+        with open(os.path.join(top, rel), "w", encoding="utf-8") as f:
+            f.write(text)
+    sb = type("S", (), {"base": staticmethod(lambda b: os.path.join(top, b))})
+    env = Environment(loader=make_loader(sb, (kind, ".liquid", reject, ("root",))))
+    name = "swap.liquid" if what == "file" else "d/page.liquid"
+    first = observe(env, name, use_async)
+    if what == "file":
+        os.remove(os.path.join(top, "root", "swap.liquid"))
+        os.symlink("../outside/swap.liquid", os.path.join(top, "root", "swap.liquid"))
+    else:
+        shutil.rmtree(os.path.join(top, "root", "d"))
+        os.symlink("../outside/d", os.path.join(top, "root", "d"))
+    second = observe(env, name, use_async)
+    shutil.rmtree(top, ignore_errors=True)
+    return first, second
+
+
+def swap_family(ck: Check, workdir) -> None:
+    """The search path changes between two requests of one loader: a template file, or the directory it is in, is replaced by a
+    symbolic link pointing outside the search path.  With reject_symlinks the second request must not hand out the outside file
+    (whatever the loader remembered from the first one); without it the link is followed, as for any link inside the path
+    (oracle only: the sandbox of the model is fixed for a run)."""
+    for kind in ("fs", "cfs"):
+        for reject in (True, False):
+            for what in ("file", "dir"):
+                for use_async in (False, True):
+                    first, second = _swap_once(workdir, kind, reject, what, use_async)
+                    ck.note_case(("swap", kind, reject, what, use_async), nontrivial=True)
+                    ck.count("swap." + second[0])
+                    ck.traces += 2
+                    bad = None
+                    if first[0] != "found" or not first[2].startswith("IN:"):
+                        bad = f"the first request (regular file inside the search path) gives {first}"
+                    elif reject and second[0] == "found" and second[2].startswith("OUTSIDE:"):
+                        bad = f"after the {what} was replaced by a symbolic link to outside the search path, the second request returns {second}"
+                    elif not reject and second[0] == "found" and not second[2].startswith(("OUTSIDE:", "IN:")):
+                        bad = f"second request returns {second}"
+                    if bad:
+                        ck.violation("impl-violation", f"c22:{kind}:content-from-outside:swapped-{what}",
+                                     f"{kind} loader (reject_symlinks={reject}, {'async' if use_async else 'sync'}): {bad}",
+                                     {"type": "swap", "loader": kind, "reject": reject, "what": what, "async": use_async,
+                                      "first": list(first), "second": list(second)})
+
+
 def run(ck: Check) -> None:
     ck.rule = (
         "template names built from a pool of 54 components (separators, '', '.', '..', names of files, directories, symlinks "
@@ -342,6 +398,7 @@ def run(ck: Check) -> None:
 
     from liquid import Environment
 
+    swap_family(ck, ck.workdir)
     sb = Sandbox(ck.workdir)
     always, sampled = loader_specs(ck)
     envs = {}
@@ -423,6 +480,21 @@ def run(ck: Check) -> None:
 
 def replay(data) -> int:
     case = data["case"]
+    if case.get("type") == "swap":
+        import shutil
+        import tempfile
+
+        from ..core import WORK
+        os.makedirs(WORK, exist_ok=True)
+        tmp = tempfile.mkdtemp(prefix="C22-replay-", dir=WORK)
+        try:
+            first, second = _swap_once(tmp, case["loader"], case["reject"], case["what"], case["async"])
+        finally:
+            shutil.rmtree(tmp, ignore_errors=True)
+        print("first request:", first, "\nafter the swap :", second)
+        bad = case["reject"] and second[0] == "found" and second[2].startswith("OUTSIDE:")
+        print(("VIOLATION reproduced" if bad else "not reproduced") + f" property={data['property']}")
+        return 1 if bad else 0
     if case.get("type") != "name" or "outcome" not in case:
         print("replay names a proof/correspondence obligation:", {k: str(v)[:200] for k, v in case.items()})
         return 1
